@@ -467,7 +467,9 @@ func c10ProtoCode(c *Ctx) {
 			}
 			e, _ := errResult(do)
 			// err lives in a cell shared with the deferred report (whose own store is always visible): "derives any"
-			isE := func(v ssa.Value) bool { return e != nil && DerivesAny(v, false, func(r ssa.Value) bool { return r == e }) }
+			isE := func(v ssa.Value) bool {
+				return e != nil && DerivesAny(v, false, func(r ssa.Value) bool { return r == e })
+			}
 			w := func(in ssa.Instruction) (int, int) {
 				if IsCall(in, sSetProto) {
 					if isStatus(CC(in).Args[1]) {
